@@ -12,10 +12,19 @@ use std::sync::atomic::Ordering::SeqCst;
 
 
 def trait_def(t):
+    gen.RENDER_GENERIC = True
+    try:
+        return _trait_def(t)
+    finally:
+        gen.RENDER_GENERIC = False
+
+
+def _trait_def(t):
     out = ["#[cglue_trait]"]
     if t.int_result:
         out.append("#[int_result]")
-    out.append(f"pub trait {t.name} {{")
+    gp = "<T: pbsupport::Val + 'static>" if t.generic else ""
+    out.append(f"pub trait {t.name}{gp}{t.supers} {{")
     for (name, attr, bound) in t.assocs():
         out.append(f"    {attr}")
         out.append(f"    type {name}: {bound};")
@@ -31,7 +40,7 @@ def trait_def(t):
 
 
 def impl_def(t, ty="Imp"):
-    out = [f"impl {t.name} for {ty} {{"]
+    out = [f"impl {t.use()} for {ty} {{"]
     for (name, attr, bound) in t.assocs():
         out.append(f"    type {name} = LeafImp;")
     for m in t.methods:
@@ -96,7 +105,7 @@ def call_block(t, m, get_w, get_r, ind="                "):
         L.append(f"{ind}{{ let seen = sw.take_ptrs(); let want: Vec<(usize, usize)> = vec![{', '.join(exp)}]; if seen != want {{ return Err(Fail::new(\"C02:arg-address\", format!(\"method {{}}: reference-like arguments arrived as (address,len) {{:x?}}, the caller passed {{:x?}}\", mname, seen, want))); }} }}")
     # 3. returns
     L.append(f"{ind}let nondefault = {nd};")
-    L.append(ind + m.ret.compare())
+    L.append(ind + m.ret.compare().replace("PROBE", getattr(t, "probe", "PROBE")))
     # 4. caller-visible effects on arguments
     for a in m.args:
         if a.after() and runs_impl:
@@ -134,7 +143,7 @@ pub const NAME: &str = "{t.name}";
 pub const NMETH: usize = {len(t.methods)};
 pub const KINDS: &[&str] = &[{', '.join('"%s"' % k for k in t.kinds())}];
 
-fn drive<O: {t.name} + Unpin>(o: O, r: Imp, sw: &Shared, sr: &Shared, wid: u64, ops: &[(u8, u64)], fl: &mut Flags, live: &dyn Fn(u64, &Flags) -> Result<(), Fail>) -> Result<(), Fail>
+fn drive<O: {t.use()} + Unpin>(o: O, r: Imp, sw: &Shared, sr: &Shared, wid: u64, ops: &[(u8, u64)], fl: &mut Flags, live: &dyn Fn(u64, &Flags) -> Result<(), Fail>) -> Result<(), Fail>
 where O: Sized{bounds}
 {{
     let mut o = Some(o);
@@ -162,8 +171,8 @@ def kinds_def(t):
     """run_case: build the wrapped object of the requested container kind and drive it."""
     T = t.name
     arms = []
-    getters = ", ".join(f"vt.{m.name}() as usize" for m in t.methods)
-    n = len(t.methods)
+    getters = ", ".join(f"vt.{m.name}() as usize" for m in t.exported())
+    n = len(t.exported())
 
     def build(expr):
         # what trait_obj! does, in two steps, with the C04 oracles in between
@@ -298,8 +307,9 @@ def group_src(g, lite=False):
     uses = "".join(f"use super::{m}::*;\n" for m in mods)
     mand_names = [t.name for (_, t) in g.mand()]
     opt_names = [g.visible(i) for i in range(len(g.opt()))]   # visible (alias) names
-    opt_decl = [(t.name + (f" = {g.aliases[i]}" if i in g.aliases else "")) for i, (_, t) in enumerate(g.opt())]
-    mand_txt = "{}" if not mand_names else (mand_names[0] if len(mand_names) == 1 else "{ " + ", ".join(mand_names) + " }")
+    opt_decl = [(t.use() + (f" = {g.aliases[i]}" if i in g.aliases else "")) for i, (_, t) in enumerate(g.opt())]
+    mand_uses = [t.use() for (_, t) in g.mand()]
+    mand_txt = "{}" if not mand_names else (mand_uses[0] if len(mand_names) == 1 else "{ " + ", ".join(mand_uses) + " }")
     decl = f"cglue_trait_group!({T}, {mand_txt}, {{ {', '.join(opt_decl)} }});"
     en = [n for i, n in enumerate(opt_decl) if g.enabled >> i & 1]
     impls = "\n".join(impl_def(t, "GImp") for (_, t) in g.members)
@@ -388,12 +398,12 @@ def group_src(g, lite=False):
         pos = m_ + sorted_opt.index(vis)
         if g.enabled >> i & 1:
             # the cast form is a concrete type that exposes its vtable references; cast and come back
-            lay.append(f"    {{ let before = raw_words(g_.as_ref().unwrap(), {m_ + k_}); let c = match cast!(g_.take().unwrap() impl {vis}) {{ Some(c) => c, None => return Err(Fail::new(\"C08:refused\", \"cast to the enabled trait {vis} refused\".to_string())) }}; opt_ptrs.push(({pos}, vt_ptr::<{t.name}Vtbl<'_, _>, _>(&c), \"{vis}\")); same_words(&before, &raw_words(&c, {m_ + k_}), \"{T}\", \"cast to {vis}\")?; g_ = Some(c.upcast()); same_words(&before, &raw_words(g_.as_ref().unwrap(), {m_ + k_}), \"{T}\", \"cast to {vis} and back\")?; }}")
+            lay.append(f"    {{ let before = raw_words(g_.as_ref().unwrap(), {m_ + k_}); let c = match cast!(g_.take().unwrap() impl {vis}) {{ Some(c) => c, None => return Err(Fail::new(\"C08:refused\", \"cast to the enabled trait {vis} refused\".to_string())) }}; opt_ptrs.push(({pos}, vt_ptr::<{t.vtbl()}, _>(&c), \"{vis}\")); same_words(&before, &raw_words(&c, {m_ + k_}), \"{T}\", \"cast to {vis}\")?; g_ = Some(c.upcast()); same_words(&before, &raw_words(g_.as_ref().unwrap(), {m_ + k_}), \"{T}\", \"cast to {vis} and back\")?; }}")
     lay.append("    let g = g_.as_ref().unwrap();")
     lay.append(f"    let gbase = g as *const _ as usize; let words = unsafe {{ ::core::slice::from_raw_parts(gbase as *const usize, {m_ + k_}) }};")
     for (_, t) in g.mand():
         pos = sorted_mand.index(t.name)
-        lay.append(f"    {{ let p = vt_ptr::<{t.name}Vtbl<'_, _>, _>(g); if words[{pos}] != p {{ return Err(Fail::new(\"C04:group-order\", format!(\"group {T}: the vtable pointer of mandatory trait {t.name} is not at word {pos} (mandatory vtables in name order first); it is at word {{:?}}\", words.iter().position(|w| *w == p)))); }} }}")
+        lay.append(f"    {{ let p = vt_ptr::<{t.vtbl()}, _>(g); if words[{pos}] != p {{ return Err(Fail::new(\"C04:group-order\", format!(\"group {T}: the vtable pointer of mandatory trait {t.name} is not at word {pos} (mandatory vtables in name order first); it is at word {{:?}}\", words.iter().position(|w| *w == p)))); }} }}")
     lay.append(f"    for (pos, p, tn) in opt_ptrs.iter() {{ if words[*pos] != *p {{ return Err(Fail::new(\"C04:group-order\", format!(\"group {T}: the vtable pointer of optional trait {{}} is not at word {{}} (optional vtables in name order after the mandatory ones); it is at word {{:?}}\", tn, pos, words.iter().position(|w| w == p)))); }} }}")
     for i, (_, t) in enumerate(g.opt()):
         pos = m_ + sorted_opt.index(g.visible(i))
